@@ -198,6 +198,9 @@ def run_function_level(sc, case, rng, out, roots_unused):
             out["viol"].append({"sig": "%s through a read-only cluster is not rejected" % name, "msg": label})
         except ValueError:
             out["obs"]["ro_function_rejections"] += 1
+        except Exception as e:
+            out["viol"].append({"sig": "%s through a read-only cluster fails with something other than a rejection" % name,
+                                "msg": "%s: %r" % (label, e)})
     if ffuncs.produce.get_metadata("log", args=("a",)) != b"hello":
         out["viol"].append({"sig": "metadata read stops working under a read-only cluster", "msg": label})
     audit.stop()
